@@ -732,6 +732,30 @@ def chk_native(T, v, M, rng):
             trees.append(('native-encoder', ne.encode(val)))
     except Exception:
         pass
+    # REAL leaves as python floats where the float denotes the value exactly (the way applications hand them over)
+    if 'kind:REAL' in features(T) and trees:
+        def floats(t, x):
+            if t['k'] == 'REAL' and isinstance(x, tuple) and x[1] == 10:
+                # (a float is stored in base 10: only a base-10 value object is its twin on the wire)
+                from fractions import Fraction
+                from pyasn1.type import univ as _u
+                try:
+                    f = float(Fraction(x[0]) * Fraction(x[1]) ** x[2])
+                    # the float whose value object (as the library builds it from a float) is this very value
+                    return f if tuple(_u.Real(f)) == tuple(_u.Real(x)) else x
+                except Exception:
+                    return x
+            if t['k'] in ('SEQUENCE', 'SET') and isinstance(x, dict):
+                return {n_: floats(ft, x[n_]) for n_, ft, m_ in t['fields'] if n_ in x}
+            if t['k'] in ('SEQUENCEOF', 'SETOF') and isinstance(x, (list, tuple)):
+                return [floats(t['elem'], y) for y in x]
+            return x
+        try:
+            ft_ = floats(T, trees[0][1])
+            if repr(ft_) != repr(trees[0][1]):
+                trees.append(('floats', ft_))
+        except Exception:
+            pass
     for (tname, tree), (ename, enc) in itertools.product(trees, (('BER', be), ('CER', ce), ('DER', de))):
         n += 1
         try:
